@@ -834,6 +834,8 @@ func (i SmallInt) LaxEqual(other Value) bool {
 				return false
 			}
 			return i == SmallInt(o)
+		case Float64:
+			return Float64(i) == o
 		default:
 			return false
 		}
